@@ -72,6 +72,15 @@ def drivers(tier, seed):
                 for variant in ["map", "map_copy_ro"]:
                     atts.append({"variant": variant, "cap": 0, "reserved": res, "kind": "opt", "magic": 5, "minseg": 8,
                                  "create": False, "create_new": False, "truncate": True})
+                # open(2) flags on the writable variants: truncate (empties an existing file before the code looks at it),
+                # append, both (refused by std before any system call), with and without create / a capacity
+                for variant in ["map_mut", "map_copy"]:
+                    for (tr, ap, cr, cap) in [(True, False, False, 0), (True, False, True, 160), (False, True, False, 0), (False, True, True, 300),
+                                              (True, True, False, 0), (True, True, True, 160)]:
+                        atts.append({"variant": variant, "cap": cap, "reserved": res, "kind": "opt", "magic": 5, "minseg": 8,
+                                     "create": cr and variant == "map_mut", "create_new": False, "truncate": tr, "append": ap})
+                atts.append({"variant": "map_mut", "cap": 160, "reserved": res, "kind": "opt", "magic": 5, "minseg": 8,
+                             "create": False, "create_new": True, "truncate": True, "append": True})
                 # expectations that differ from the file
                 atts.append({"variant": "map_mut", "cap": 0, "reserved": res, "kind": "pes", "magic": 5, "minseg": 8, "create": False, "create_new": False})
                 atts.append({"variant": "map_mut", "cap": 0, "reserved": res, "kind": "opt", "magic": 6, "minseg": 8, "create": False, "create_new": False})
@@ -115,6 +124,8 @@ def drivers(tier, seed):
                     for cap in [0, 160, 300]:
                         atts.append({"variant": variant, "cap": cap, "reserved": res, "kind": "opt", "magic": 5, "minseg": 8,
                                      "create": False, "create_new": False, "offset": off})
+                atts.append({"variant": "map_mut", "cap": 0, "reserved": res, "kind": "opt", "magic": 5, "minseg": 8, "create": False, "create_new": False, "offset": off, "truncate": True})
+                atts.append({"variant": "map_mut", "cap": 300, "reserved": res, "kind": "opt", "magic": 5, "minseg": 8, "create": True, "create_new": False, "offset": off, "append": True})
                 atts.append({"variant": "map_mut", "cap": 0, "reserved": res, "kind": "pes", "magic": 5, "minseg": 8, "create": False, "create_new": False, "offset": off})
                 atts.append({"variant": "map_mut", "cap": 300, "reserved": res, "kind": "opt", "magic": 6, "minseg": 8, "create": True, "create_new": False, "offset": off})
                 atts.append({"variant": "map_mut", "cap": 160, "reserved": res, "kind": "opt", "magic": 5, "minseg": 8, "create": False, "create_new": True, "offset": off})
